@@ -550,7 +550,12 @@ def r5(ctx):
                   f"a supplied `{mp}` reaches the encoder without a dominating refusal `{mp} is not None and not numpy_array_is_0_indexed_integers({mp}[-1])`"
                   + ("" if not related else " (a validation exists but does not dominate the encoder call or tests another component)"))
     mapping_verbatim(ctx, "R5")
-    # the validator's definition, arm by arm (per-path return expressions, locals inlined)
+    validator_definition(ctx)
+
+
+def validator_definition(ctx):
+    """the validator's definition, arm by arm (per-path return expressions, locals inlined); C02 runs it too: load_h5 hands every stored
+    mapping to the constructor, so a validator that refuses a mapping the encoder itself produced makes a written archive unreadable"""
     from engine.astutil import path_returns
     v = ctx.fn("data.numpy_array_is_0_indexed_integers")
     a = v.params[0]
@@ -680,6 +685,25 @@ def r5(ctx):
     ok_w = arm_ok(w, sent_val)
     ok_wo = arm_ok(wo, 0)
     ok_dt = "dtype" in arms and U(arms["dtype"]) == "False"
+
+    def raw_values(ret):
+        """the arm compares ALL values (sorted, not de-duplicated) with a run as long as the array"""
+        r = ret
+        if isinstance(r, ast.Call) and call_name(r) in ("np.all", "bool", "all") and len(r.args) == 1:
+            r = r.args[0]
+        elif isinstance(r, ast.Call) and call_name(r) == "np.array_equal" and len(r.args) == 2:
+            r = ast.Compare(left=r.args[0], ops=[ast.Eq()], comparators=[r.args[1]])
+        if not (isinstance(r, ast.Compare) and len(r.ops) == 1 and isinstance(r.ops[0], ast.Eq)):
+            return False
+        sides = [U(x).replace(" ", "") for x in (r.left, r.comparators[0])]
+        return any(t in (f"np.sort({a})", f"sorted({a})", a) for t in sides) and not any("unique" in t or "set(" in t for t in sides) \
+            and any(f"{a}.shape[0]" in t or f"len({a})" in t or f"{a}.size" in t for t in sides)
+    if not (ok_w and ok_wo) and (raw_values(w) or raw_values(wo)):
+        ctx.check("R5", f"{v.site()}::definition", False, "",
+                  f"the validator compares ALL the values with a run as long as the array (`{U(w if raw_values(w) else wo)[:90]}`), not the distinct values: "
+                  f"an id column in which an id occurs twice - a treatment mapping with two control conditions (id -1 twice), which the encoder "
+                  f"itself produces - is refused, so a screen that was just written cannot be constructed again from its stored mapping")
+        return
     if not (ok_w and ok_wo) and not any("unique" in U(x) for x in (w, wo)):
         raise AnalysisError(f"{v.site()}: the validator's arms do not compare np.unique(arr) with a range; a different algorithm cannot be judged by this rule")
     ctx.check("R5", f"{v.site()}::definition", ok_w and ok_wo and ok_dt,
